@@ -976,7 +976,11 @@ OrangeTrackView::find_next_step_impl(detail::Intersection isect)
             },
             uid);
 
-        if (local_isect.distance < isect.distance)
+        // A deeper surface wins if it is strictly closer, or if no surface has
+        // been found yet: a distance-limited search at the shallower levels
+        // returns the limit itself when it finds nothing, and a deeper
+        // surface exactly at that limit must still be reported as a boundary
+        if (local_isect.distance < isect.distance || (local_isect && !isect))
         {
             isect = local_isect;
             min_level = levelid;
